@@ -6,11 +6,13 @@ import (
 	"context"
 	"fmt"
 	"math"
+	"net"
 	"net/http"
 	"net/http/httptest"
 	"os"
 	"runtime/debug"
 	"strings"
+	"sync"
 	"sync/atomic"
 	"time"
 
@@ -20,6 +22,7 @@ import (
 	"github.com/atlassian/gostatsd/internal/verif/lib/fx"
 	"github.com/atlassian/gostatsd/internal/verif/vrt"
 	"github.com/atlassian/gostatsd/pb"
+	"github.com/atlassian/gostatsd/pkg/fakesocket"
 	"github.com/atlassian/gostatsd/pkg/statsd"
 	"github.com/atlassian/gostatsd/pkg/web"
 )
@@ -116,6 +119,143 @@ func feed(d []byte) {
 	if m1-m0+e1-e0 > 0 {
 		nontrivial++
 	}
+}
+
+// ---- the receiver in front of the parser: datagrams are read by the real DatagramReceiver from a scripted
+// PacketConn (one ReadFrom per datagram, sizes from 0 to the 64 KiB buffer) and handed to the real parser.
+
+type scriptConn struct {
+	ch     chan []byte
+	closed chan struct{}
+}
+
+type scriptAddr struct{}
+
+func (scriptAddr) Network() string { return "udp" }
+func (scriptAddr) String() string  { return "1.2.3.4:9" }
+
+func (c *scriptConn) ReadFrom(b []byte) (int, net.Addr, error) {
+	select {
+	case d := <-c.ch:
+		return copy(b, d), &net.UDPAddr{IP: net.IPv4(1, 2, 3, 4), Port: 9}, nil
+	case <-c.closed:
+		return 0, nil, fakesocket.ErrClosedConnection
+	}
+}
+func (c *scriptConn) WriteTo([]byte, net.Addr) (int, error) { return 0, nil }
+func (c *scriptConn) Close() error                          { return nil }
+func (c *scriptConn) LocalAddr() net.Addr                   { return scriptAddr{} }
+func (c *scriptConn) SetDeadline(time.Time) error           { return nil }
+func (c *scriptConn) SetReadDeadline(time.Time) error       { return nil }
+func (c *scriptConn) SetWriteDeadline(time.Time) error      { return nil }
+
+// lockedSink records the counter names dispatched by the parser (read while the parser keeps working)
+type lockedSink struct {
+	mu    sync.Mutex
+	names map[string]int
+}
+
+func (l *lockedSink) EstimatedTags() int                             { return 0 }
+func (l *lockedSink) WaitForEvents()                                 {}
+func (l *lockedSink) DispatchEvent(context.Context, *gostatsd.Event) {}
+func (l *lockedSink) DispatchMetricMap(_ context.Context, mm *gostatsd.MetricMap) {
+	l.mu.Lock()
+	defer l.mu.Unlock()
+	for n := range mm.Counters {
+		l.names[n]++
+	}
+}
+func (l *lockedSink) take(name string) int {
+	l.mu.Lock()
+	defer l.mu.Unlock()
+	n := l.names[name]
+	delete(l.names, name)
+	return n
+}
+
+type recvRig struct {
+	in   chan []*statsd.Datagram
+	died chan string
+	sink *lockedSink
+	conn *scriptConn
+}
+
+func newRecvRig() *recvRig {
+	r := &recvRig{in: make(chan []*statsd.Datagram), died: make(chan string, 2), sink: &lockedSink{names: map[string]int{}}, conn: &scriptConn{ch: make(chan []byte), closed: make(chan struct{})}}
+	dp := statsd.NewDatagramParser(r.in, "", false, 0, r.sink, 0, false, fx.Quiet())
+	go func() {
+		defer func() {
+			if p := recover(); p != nil {
+				r.died <- fmt.Sprintf("%v\n%s", p, debug.Stack())
+			}
+		}()
+		dp.Run(context.Background())
+	}()
+	dr := statsd.NewDatagramReceiver(r.in, nil, 1, 2)
+	go func() {
+		defer func() {
+			if p := recover(); p != nil {
+				r.died <- fmt.Sprintf("%v\n%s", p, debug.Stack())
+			}
+		}()
+		dr.Receive(context.Background(), r.conn)
+	}()
+	return r
+}
+
+var rrig *recvRig
+
+// feedReceiver pushes d and three sentinels through the receiver. The receiver asks for its fourth
+// datagram only after the parser took the third, i.e. after d and the first sentinel were parsed
+// completely: no clock is involved.
+func feedReceiver(d []byte) {
+	res.Evaluations++
+	progress.Add(1)
+	current.Store(fmt.Sprintf("datagram %q through the receiver", trunc(d)))
+	for k, x := range [][]byte{d, []byte("sentinel.a:1|c"), []byte("sentinel.b:1|c"), []byte("sentinel.c:1|c")} {
+		select {
+		case rrig.conn.ch <- x:
+		case p := <-rrig.died:
+			res.Violate("receiver-panic "+keyOfPanic(p), fmt.Sprintf("datagram %q read by the receiver crashed ingestion (while datagram %d of the group was offered): %s", trunc(d), k, p), map[string]any{"kind": "receiver", "bytes": d})
+			close(rrig.conn.closed)
+			rrig = newRecvRig()
+			return
+		}
+	}
+	if rrig.sink.take("sentinel.a") != 1 {
+		res.Violate("receiver-not-continuing", fmt.Sprintf("after datagram %q the next datagram was not parsed", trunc(d)), map[string]any{"kind": "receiver", "bytes": d})
+	}
+	nontrivial++
+}
+
+func receiverFamily() {
+	rrig = newRecvRig()
+	feedReceiver(nil)
+	feedReceiver([]byte{})
+	alpha := []byte("a:|1c\n\x00_e{},")
+	var i int64
+	for _, c1 := range alpha {
+		feedReceiver([]byte{c1})
+		for _, c2 := range alpha {
+			i++
+			if vrt.Mine(i) {
+				feedReceiver([]byte{c1, c2})
+				feedReceiver([]byte{c1, c2, '\n'})
+			}
+		}
+	}
+	if *vrt.Shard == 0 {
+		for _, n := range []int{1, 1471, 1472, 1473, 8191, 8192, 65506, 65507, 65534, 65535, 65536, 70000} {
+			feedReceiver(bytes.Repeat([]byte("a"), n))
+			feedReceiver(append(bytes.Repeat([]byte("a:1|c\n"), n/6), bytes.Repeat([]byte("\n"), n%6)...))
+		}
+		for _, seq := range [][][]byte{{{}, {}, {}}, {[]byte("a:1|c"), {}, []byte("b:1|c")}, {{}, []byte("_e{1,1}:a|b"), {}}} {
+			for _, d := range seq {
+				feedReceiver(d)
+			}
+		}
+	}
+	res.Sample(map[string]any{"family": "receiver", "datagram": ""})
 }
 
 func trunc(d []byte) []byte {
@@ -500,6 +640,9 @@ func main() {
 		case "datagram":
 			rig = newRig()
 			feed(rp.Bytes)
+		case "receiver":
+			rrig = newRecvRig()
+			feedReceiver(rp.Bytes)
 		case "http":
 			setupHTTP()
 			httpCase(rp.Bytes)
@@ -521,6 +664,7 @@ func main() {
 	switch *vrt.Sub {
 	case "datagram":
 		datagramFamilies()
+		receiverFamily()
 	case "http":
 		httpFamilies()
 		httpStructured()
